@@ -154,6 +154,7 @@ static unsigned long sp_skip_white(unsigned long p) { unsigned long k; for (k = 
 
 
 META = dict(
+    technique='CBMC 6.11 function + loop contracts (dfcc, --enforce-contract-rec for parseNode) on every scanner/parser function, text up to 2^47 bytes; bounded unwinding against exact specifications for the leaf strings',
     level="proof",
     level_text="Every scanner/parser function of XML.cpp (isWhite, expect x2, consume x2, consumeComment, makeString, parseString, parseIdentifier, skipWhites, parseProp, skipComment, the recursive parseNode, parseHeader, parseXML) is extracted from /repo and proved, for NUL-terminated buffers of ANY length up to 2^47 bytes (the x86-64 user address space; the only bound, a harness assumption) with arbitrary contents and any cursor position, to keep the cursor inside [buffer, terminator], to dereference only bytes of the buffer (CBMC pointer checks on every *s, s[1], s[2], end[-1]), to terminate in every loop (loop contracts with decreases clauses; parseNode with its own contract assumed at the recursive call) and to leave either normally or with std::runtime_error in flight.",
     level_note="LEAF-LEVEL fidelity is checked by BOUNDED exact contracts (unit c16_values: texts of at most 8 bytes, bounded std::string code model, memcpy as a byte loop): makeString is exactly the bytes [begin,end), parseString yields exactly the bytes between the quotes (escapes skipped as the scanner defines) and throws exactly for an unterminated string, parseIdentifier yields exactly the scanned identifier, parseProp yields exactly name and value of a well-formed name=\"value\" and throws for a malformed one. Above the leaves std::string / std::map / std::vector<Node> / string streams are OPAQUE (values not modelled): how parseNode ASSEMBLES the tree (property map, child order, trimmed content) is NOT verified. isalpha/isdigit/isspace as in the C locale. readXML's file handling (fopen/ftell/fread) is assumed to hand parseXML a buffer of numBytes+1 bytes whose last byte is 0. Recursion depth (stack) is not bounded by the proof.",
